@@ -27,13 +27,15 @@ PROPS = {
         "assumptions": ["displayed + hidden <= u64::MAX (the property's quantifier)"],
     },
     "C06": {
-        "engines": ["seq0"],
+        "engines": ["seq0", "deep"],
         "footprint": {"match": "*", "state": ["vis", "list"]},
         "hang_is_violation": True,
         "nontrivial": r"^match txs=\[[^\]]+\] rem=[1-9]",   # a match that executed something and still had quantity left
         "rule": "E-seq with zero quantities allowed: random histories (1-40 ops, thorough 1-120) of add/match/cancel/amend/price-move/replace over all "
                 "seven order kinds on a pool of 3-7 ids, then three draining matches; a case is non-trivial when some match executed "
-                "at least one transaction and returned with quantity remaining; distinct = distinct op list",
+                "at least one transaction and returned with quantity remaining; distinct = distinct op list. E-deep: one sweep per run (thorough: two) of an "
+                "iceberg / auto-replenishing reserve order displaying 1-2 units over 66 000-90 000 tranches with a plain order behind it: a "
+                "single call that re-queues the same maker tens of thousands of times",
         "assumptions": ["ids unique among resting orders; sums below 2^63 (the property's quantifier)"],
     },
     "C01": {
@@ -75,9 +77,11 @@ PROPS = {
     "C19": {
         "engines": ["queue"],
         "footprint": {"q.push": "*", "q.pop": "*", "q.find": "*", "q.remove": "*", "q.len": "*", "q.isempty": "*",
-                      "q.tovec": "*", "q.fromvec": "*", "qnew": "*"},
+                      "q.tovec": "*", "q.fromvec": "*", "q.rt": "*", "qnew": "*"},
         "nontrivial": r"^q\.(pop|remove) [A-Z]",
-        "rule": "E-seq on the exported OrderQueue: random sequences (1-30 ops, thorough 1-60) of push/pop/find/remove/len/is_empty/to_vec on a "
+        "rule": "E-seq on the exported OrderQueue: random sequences (1-30 ops, thorough 1-60) of push/pop/find/remove/len/is_empty/to_vec and rebuilds (q.rt: a second queue built from "
+                "the current one via from_vec / From<Vec> / Display->FromStr / serde JSON by from_str, from_value, from_reader and from an all-escaped text, "
+                "then listed, counted and drained) on a "
                 "pool of 2-7 ids, ids pushed once or (one third of the cases) re-pushed after removal, a quarter of the queues built by from_vec, "
                 "then a drain; every answer compared with the model and judged against the abstract FIFO run by the driver; non-trivial = a pop "
                 "or remove that returned an order; distinct = distinct op list",
